@@ -3,6 +3,7 @@ From Coq Require Import List NArith ZArith.
 From YV Require Import Base.Wire Model.Binary Model.Batch Model.InPlace.
 From YV Require Import Proofs.ProtocolProofs Proofs.BatchProofs Proofs.InPlaceProofs.
 From YV Require Import Model.CodedCpp Model.CodedPy Model.PyTyped Proofs.PyTypedProofs Model.PyReadProg Model.PyTypedRead Proofs.PyTypedReadProofs.
+From YV Require Import Model.CppLayout Model.CppTyped Proofs.CppTypedProofs Model.CppReadProg Model.CppTypedRead Proofs.CppTypedReadProofs.
 Import ListNotations.
 Open Scope N_scope.
 
@@ -54,7 +55,17 @@ Theorem C17_py_stream_any_grouping : forall t bs fuel rest,
 Proof. exact py_stream_any_grouping. Qed.
 Print Assumptions C17_py_stream_any_grouping.
 
+(* generated C++: a stream step copied with ANY batch capacity (WriteBlock per item, or WriteVector per chunk with its memcpy
+   fast path) is read back item by item as the items in their order *)
+Theorem C17_cpp_stream_any_batch : forall t batch items fuel rest,
+  forallb (has_type t) items = true -> forallb vsmall items = true -> N.of_nat (length items) < 2 ^ 64 ->
+  (length items < fuel)%nat ->
+  arun_c (cpp_read_stream fuel t) (cbytes (cpp_stream_ops t batch items) ++ rest) = CVal items rest.
+Proof. exact cpp_stream_any_batch. Qed.
+Print Assumptions C17_cpp_stream_any_batch.
+
 Example C17_hyp_sat :
   forallb (forallb (has_type (TMap (TPrim PString) (TPrim PInt32))))
     [[VMapv [(VStr [97], VInt 1)]]; []; [VMapv [(VStr [98], VInt 2)]; VMapv []]] = true.
 Proof. vm_compute. reflexivity. Qed.
+Print Assumptions C17_hyp_sat.
